@@ -96,6 +96,130 @@ def tie_sentwrap(ctx: Ctx) -> None:
              "sequences with sentence-end words; non-trivial = multi-line output")
 
 
+SE_ALPHABET = ["a", "b", "Z", "é", "ñ", "Д", "д", "中", "ǅ", "1", "_", ".", "?", "!", "'", '"', "’", "”", ")", "(", "-", "ª"]
+
+
+def char_flags(w: str) -> str:
+    import unicodedata
+    out = []
+    for c in w:
+        cat = unicodedata.category(c)
+        letter = cat.startswith("L")
+        lower = cat == "Ll"
+        word = c.isalnum() or c == "_" or cat.startswith("M") or cat == "Pc"
+        out.append(str(int(letter) + 2 * int(lower) + 4 * int(word)))
+    return "".join(out)
+
+
+def tie_sentend(ctx: Ctx) -> None:
+    """SENTENCE_END_RE (regex module) vs the scanner model with character classes from unicodedata."""
+    import itertools
+    _, ss = _lw()
+    maxlen = ctx.scale(4, 5)
+    words = ["".join(t) for n in range(1, maxlen + 1) for t in itertools.product(SE_ALPHABET, repeat=n)]
+    words += SENT_WORDS + ["café.", "schön!", "день.", "naïve?)", "A.", "ab.c", "x1ab.", "_ab.", "ab.”", "ab”.", "ab.'", "ab…", "Ab!?", "été.", "ΑΒγ.", "ΑΒΓ."]
+    outs = run_driver([f"sentEnd\t{enc(w)}\t{char_flags(w)}" for w in words], workers=16)
+    bad = 0
+    for w, o in zip(words, outs):
+        exp = "1" if ss.heuristic_end_of_sentence(w) else "0"
+        if o != exp:
+            bad += 1
+            ctx.tie_broken("sentEnd", {"word": w}, o, exp)
+    ctx.count({"op": "sentEnd", "alphabet": SE_ALPHABET, "maxlen": maxlen}, n=len(words))
+    ctx.obligation(f"tie sentEnd: scanner model of SENTENCE_END_RE (classes from unicodedata) = heuristic_end_of_sentence on all "
+                   f"{len(words)} words over a {len(SE_ALPHABET)}-symbol alphabet (ASCII, Latin-1, Cyrillic, CJK, titlecase, digits, closers) ≤{maxlen}",
+                   "correspondence", bad == 0, f"{bad} disagreement(s)")
+
+
+ATOM_WORDS = ["`code span here`", "[a link](http://x.y/z)", "[multi word link text](u)", "{% tag a=1 %}", "<b>", "</b>",
+              "`x`", "[ref][r]", "<!-- c -->", "{{ v }}", "`end. inside`", "[end. here](u)"]
+
+
+def tie_sentwrap_atoms(ctx: Ctx) -> None:
+    """Same tie with atomic constructs: sentences from the real sentence splitter, words of each sentence from
+    the real Markdown word splitter (both are parameters of the model)."""
+    lw, ss = _lw()
+    from flowmark.linewrapping.text_wrapping import get_html_md_word_splitter
+    split = get_html_md_word_splitter()
+    rng = ctx.rng
+    cases, ops = [], []
+    for _ in range(ctx.scale(6000, 60000)):
+        n = rng.randint(1, 30)
+        ws = [rng.choice(ATOM_WORDS) if rng.random() < 0.25 else rng.choice(SENT_WORDS) for _ in range(n)]
+        text = " ".join(ws)
+        W = rng.choice([15, 20, 25, 30, 40, 60, 88])
+        i0 = rng.choice(["", "- ", "> ", "1. "])
+        s0 = " " * len(i0) if i0 != "> " else "> "
+        ml = rng.choice([20, 20, 10, 30])
+        sents = lw.split_sentences_no_min_length(text)
+        words, flags = [], []
+        for s_ in sents:
+            mw = split(s_)
+            words += mw
+            flags += ["0"] * (len(mw) - 1) + ["1"] if mw else []
+        if any((" " in w and not any(ch in w for ch in "`[{<")) for w in words):
+            continue
+        cases.append((text, W, i0, s0, ml))
+        ops.append(f"sentWrap\t{W}\t{enc(i0)}\t{enc(s0)}\t{ml}\t1\t{enc_list(words)}\t{''.join(flags)}")
+    outs = run_driver(ops, workers=16)
+    bad = 0
+    for (text, W, i0, s0, ml), o in zip(cases, outs):
+        exp = lw.line_wrap_by_sentence(width=W, min_line_len=ml, is_markdown=True)(text, i0, s0)
+        got = None if o == "bad-op" else dec(o)
+        ctx.count(["sentWrapAtoms", text, W, i0, ml], nontrivial="\n" in exp)
+        if got != exp:
+            bad += 1
+            ctx.tie_broken("sentWrapAtoms", {"text": text, "W": W, "i0": i0, "s0": s0, "minLen": ml, "md": True}, got, exp)
+        break_cause_check(ctx, text, W, i0, s0, ml, exp)
+    ctx.obligation(f"tie sentWrap(atoms): model = line_wrap_by_sentence on {len(cases)} texts with code spans/links/tags "
+                   f"(sentences and per-sentence words from the real splitters)", "correspondence", bad == 0, f"{bad} disagreement(s)")
+
+
+def break_cause_check(ctx: Ctx, text, W, i0, s0, ml, out: str) -> None:
+    """BREAK_CAUSE on a real output: every line break is after a sentence-end word or width-forced."""
+    _, ss = _lw()
+    from flowmark.linewrapping.text_wrapping import get_html_md_word_splitter, markdown_escape_word
+    split = get_html_md_word_splitter()
+    if any(x in text for x in ("%} {%", "}} {{", "#} {#", "--> <!--")):
+        return  # separated same-family tags lose their space (C06's SEP finding); line lengths then differ
+    lines = out.split("\n")
+    bodies = []
+    for i, l in enumerate(lines):
+        ind = i0 if i == 0 else s0
+        bodies.append(l[len(ind):] if l.startswith(ind) else l)
+    case = {"text": text, "W": W, "i0": i0, "s0": s0, "minLen": ml, "md": True}
+    for i in range(len(lines) - 1):
+        toks = split(bodies[i])
+        nxt_toks = split(bodies[i + 1])
+        if not toks or not nxt_toks:
+            continue
+        if ss.heuristic_end_of_sentence(toks[-1].split()[-1] if toks[-1].split() else toks[-1]):
+            continue
+        nxt = nxt_toks[0]
+        nxt_len = min(len(nxt), len(nxt.lstrip("\\"))) if nxt.startswith("\\") else len(nxt)
+        ind = len(i0) if i == 0 else len(s0)
+        if ind + len(bodies[i]) + 1 + nxt_len > W:
+            continue
+        # known corner (C11-unmerged-first-line-filled-short): the sentence's first line was filled from the
+        # accounting column after a short last line (continuation indent + len(short line), no joining space);
+        # either the merge was then refused (previous line is the short one) or it happened (the short line is
+        # the head of this line). Attributed only if the break IS forced relative to that accounting column.
+        known = None
+        base = len(s0)
+        if (i > 0 and len(bodies[i - 1]) < ml and base + len(bodies[i - 1]) + len(bodies[i]) <= W
+                and base + len(bodies[i - 1]) + len(bodies[i]) + 1 + nxt_len > W):
+            known = "C11-unmerged-first-line-filled-short"
+        ends = [k for k, t in enumerate(toks[:-1]) if ss.heuristic_end_of_sentence(t.split()[-1] if t.split() else t)]
+        if known is None and ends:
+            head = " ".join(toks[: ends[-1] + 1])
+            tail = " ".join(toks[ends[-1] + 1:])
+            if len(head) < ml and base + len(head) + len(tail) <= W and base + len(head) + len(tail) + 1 + nxt_len > W:
+                known = "C11-unmerged-first-line-filled-short"
+        ctx.fail("BREAK_CAUSE: line break neither after a sentence end nor forced by the width", case,
+                 {"line": lines[i], "next": lines[i + 1]}, known=known)
+        return
+
+
 # ------------------------------------------------------------------------------------------
 # Ring 3: locality oracle on the real wrapper
 
@@ -151,16 +275,58 @@ def locality_oracle(ctx: Ctx, n: int) -> None:
                 break
 
 
+def replay_findings(ctx: Ctx) -> None:
+    lw, _ = _lw()
+    for fid, e in ctx.kf.items():
+        c = e.get("input") or {}
+        if "text" in c:
+            out = lw.line_wrap_by_sentence(width=c["W"], min_line_len=c["minLen"], is_markdown=c["md"])(c["text"], c["i0"], c["s0"])
+            sub = Ctx(ctx.prop, ctx.tier, ctx.seed)
+            sub.kf = {}
+            break_cause_check(sub, c["text"], c["W"], c["i0"], c["s0"], c["minLen"], out)
+            ctx.known_replay(fid, bool(sub.failing))
+
+
 def run(ctx: Ctx) -> None:
     driver_ok = lean_obligations(ctx)
+    replay_findings(ctx)
     if driver_ok:
-        tie_sentwrap(ctx)
+        ctx.guard("tie sentWrap", tie_sentwrap)
+        ctx.guard("tie sentEnd", tie_sentend)
+        ctx.guard("tie sentWrap(atoms)", tie_sentwrap_atoms)
     locality_oracle(ctx, ctx.scale(3000, 40000))
     ctx.assume("SENTENCE_END_RE is a parameter (per-word flags computed by the real regex); Markdown layers "
                "(tags, hard breaks, atoms) are excluded from this tie and covered by C06/C01 ties")
 
 
 def search(ctx: Ctx) -> None:
+    lw, _ = _lw()
+    for b in ctx.broken_inputs:
+        c = b["case"]
+        if b["tie"] == "sentEnd" and b["model"] == "1" and b["impl"] == "0":
+            # a word the pinned pattern (as modelled) detects as a sentence end: END_BREAKS must hold after it
+            w = c["word"]
+            t = "aaaa bbbb cccc dddd eeee " + w + " Ffff gggg hhhh iiii jjjj kkkk."
+            out = lw.line_wrap_by_sentence(width=88, is_markdown=True)(t, "", "")
+            if "\n" not in out:
+                ctx.fail("END_BREAKS: no line break after a sentence-final word (per the pinned SENTENCE_END_RE semantics)",
+                         {"text": t, "W": 88, "i0": "", "s0": "", "minLen": 20, "md": True, "word": w}, out)
+            continue
+        if "text" in c:
+            out = lw.line_wrap_by_sentence(width=c["W"], min_line_len=c["minLen"], is_markdown=c["md"])(c["text"], c["i0"], c["s0"])
+            break_cause_check(ctx, c["text"], c["W"], c["i0"], c["s0"], c["minLen"], out)
+        elif "words" in c and "minLen" in c:
+            t = " ".join(c["words"])
+            out = lw.line_wrap_by_sentence(width=c["W"], min_line_len=c["minLen"], is_markdown=c["md"])(t, c["i0"], c["s0"])
+            break_cause_check(ctx, t, c["W"], c["i0"], c["s0"], c["minLen"], out)
+    rng = ctx.rng
+    for _ in range(30000):
+        ws, W, i0, s0, ml, md = rand_case(ctx)
+        t = " ".join(ws)
+        out = lw.line_wrap_by_sentence(width=W, min_line_len=ml, is_markdown=md)(t, i0, s0)
+        break_cause_check(ctx, t, W, i0, s0, ml, out)
+        if ctx.failing:
+            return
     locality_oracle(ctx, 60000)
 
 
